@@ -9,6 +9,10 @@ import (
 	"reflect"
 	"strings"
 
+	"github.com/ohler55/ojg"
+	"github.com/ohler55/ojg/oj"
+	"github.com/ohler55/ojg/sen"
+
 	"verif/harness/lib"
 )
 
@@ -24,6 +28,49 @@ type omitWriter struct {
 var omitWriters = []omitWriter{
 	{"oj.JSON", "oj", false, false}, {"oj.JSON/indent", "oj", true, false}, {"oj.Marshal", "oj", false, true}, {"oj.Write", "oj", false, false},
 	{"sen.String", "sen", false, false}, {"sen.String/indent", "sen", true, false},
+	// the unsorted object writers (tightObject / appendObject; every other stream sets Sort)
+	{"oj.JSON/nosort", "oj", false, false}, {"oj.JSON/indent/nosort", "oj", true, false},
+	{"sen.String/nosort", "sen", false, false}, {"sen.String/indent/nosort", "sen", true, false},
+	// alt.Decompose (written by oj.JSON without omit options): model encodeA (Reflect/EncOmitAlt.lean)
+	{"alt.Decompose", "alt", false, false},
+	// pretty.JSON: alt.Decompose at the non-generic frontier plus the skip tests of its node builder (encodeP)
+	{"pretty.JSON", "pretty", false, false},
+}
+
+// omitExtra: entry points only this stream uses (Sort off).
+var omitExtra = []encoder{
+	{name: "oj.JSON/nosort", model: "oj", run: func(v any, o *ojg.Options) (string, error) {
+		o2 := *o
+		o2.Sort = false
+		return oj.JSON(v, &o2), nil
+	}},
+	{name: "oj.JSON/indent/nosort", model: "oj", indent: true, run: func(v any, o *ojg.Options) (string, error) {
+		o2 := *o
+		o2.Sort, o2.Indent = false, 2
+		return oj.JSON(v, &o2), nil
+	}},
+	{name: "sen.String/nosort", model: "sen", sen: true, run: func(v any, o *ojg.Options) (string, error) {
+		o2 := *o
+		o2.Sort = false
+		return sen.String(v, &o2), nil
+	}},
+	{name: "sen.String/indent/nosort", model: "sen", sen: true, indent: true, run: func(v any, o *ojg.Options) (string, error) {
+		o2 := *o
+		o2.Sort, o2.Indent = false, 2
+		return sen.String(v, &o2), nil
+	}},
+}
+
+func omitEncoder(name string) *encoder {
+	if e := encoderByName(name); e != nil {
+		return e
+	}
+	for i := range omitExtra {
+		if omitExtra[i].name == name {
+			return &omitExtra[i]
+		}
+	}
+	return nil
 }
 
 const omitTightID = "C15-omitnil-tight-empty-string"
@@ -31,6 +78,9 @@ const omitTightID = "C15-omitnil-tight-empty-string"
 func checkOmitModel(d *lib.Driver, c *c15Case) error {
 	ty, val := c.tokens()
 	arg := c.arg()
+	var gotBy [4][]string
+	var prettyBy [2]string
+	defer func() { omitNilOracle(c, gotBy, prettyBy) }()
 	for combo := 0; combo < 4; combo++ {
 		s := c.spec
 		s.OmitNil, s.OmitEmpty = combo&1 != 0, combo&2 != 0
@@ -58,13 +108,52 @@ func checkOmitModel(d *lib.Driver, c *c15Case) error {
 				got[i] = ""
 				continue
 			}
-			got[i] = outcome(encoderByName(w.enc), arg, &o)
+			got[i] = outcome(omitEncoder(w.enc), arg, &o)
 			if got[i] != model[i] {
 				rp := c.replay()
 				rp["options"] = s.word(false, false)
 				rp["encoder"], rp["implementation"], rp["model"] = w.enc, got[i], model[i]
 				rep.Add(lib.Finding{Kind: "disagreement", Class: "omit-model:" + w.enc, Replay: rp,
 					What: fmt.Sprintf("with OmitNil=%v OmitEmpty=%v %s describes %s, the omit model (encodeO, Dev.current) gives %s", s.OmitNil, s.OmitEmpty, w.enc, got[i], model[i])})
+			}
+		}
+		gotBy[combo] = got
+		if combo < 2 {
+			prettyBy[combo] = outcome(encoderByName("pretty.JSON"), arg, &o)
+		}
+		// entry points that must describe the same tree whatever the omit options are: Sort on / off,
+		// oj / sen at the same indentation (Lean: writers_oj_sen_agree_omit), oj.JSON / oj.Write
+		for _, p := range [][3]any{{0, 6, "sort-vs-nosort"}, {1, 7, "sort-vs-nosort"}, {4, 8, "sort-vs-nosort"}, {5, 9, "sort-vs-nosort"},
+			{0, 4, "oj-vs-sen"}, {1, 5, "oj-vs-sen"}, {0, 3, "json-vs-write"}} {
+			a, b := p[0].(int), p[1].(int)
+			if got[a] == "" || got[b] == "" || got[a] == got[b] {
+				continue
+			}
+			rp := c.replay()
+			rp["options"] = s.word(false, false)
+			rp[omitWriters[a].enc], rp[omitWriters[b].enc] = got[a], got[b]
+			rep.Add(lib.Finding{Kind: "violation", Class: "omit:" + p[2].(string) + ":" + omitWriters[b].enc, Replay: rp,
+				What: fmt.Sprintf("with OmitNil=%v OmitEmpty=%v %s describes %s and %s describes %s", s.OmitNil, s.OmitEmpty,
+					omitWriters[a].enc, got[a], omitWriters[b].enc, got[b])})
+		}
+		// oj against alt.Decompose and pretty.JSON under the omit options: they do differ (known finding
+		// C15-omit-options, reported by checkOmit) — but only in the way the models say. A difference in
+		// which one of the two trees is not its model's tree is not that finding.
+		if combo != 0 {
+			for j, w := range omitWriters {
+				if (w.model != "alt" && w.model != "pretty") || got[j] == "" || got[0] == "" || got[0] == got[j] {
+					continue
+				}
+				if got[j] == model[j] && got[0] == model[0] {
+					rep.Count("omit_model.modelled_difference."+w.enc, 1)
+					continue
+				}
+				rp := c.replay()
+				rp["options"] = s.word(false, false)
+				rp["oj.JSON"], rp[w.enc], rp["model:oj.JSON"], rp["model:"+w.enc] = got[0], got[j], model[0], model[j]
+				rep.Add(lib.Finding{Kind: "violation", Class: fmt.Sprintf("omit:%c%c:not-the-modelled-difference:%s", bit(s.OmitNil), bit(s.OmitEmpty), w.enc), Replay: rp,
+					What: fmt.Sprintf("with OmitNil=%v OmitEmpty=%v oj.JSON describes %s and %s describes %s; the models of the two (encodeO, %s) give %s and %s: the encoders differ, and not in the way known finding C15-omit-options describes",
+						s.OmitNil, s.OmitEmpty, got[0], w.enc, got[j], map[string]string{"alt": "encodeA", "pretty": "encodeP"}[w.model], model[0], model[j])})
 			}
 		}
 		// the tight and the indented writer of a package describe the same tree
@@ -121,7 +210,8 @@ func boundaryOmitC15(emit func(*c15Case)) {
 		L: []int{}},
 		map[string]any{"nil": nil, "s": "", "m": map[string]any(nil), "l": []any(nil), "t": T{}, "in": In{}},
 		map[string]string{"a": "", "b": "x"}, []map[string]string{{"a": ""}}, map[string]In{"z": {}}, []any{nil, "", map[string]any{"x": nil}},
-		In{}, &In{}, []*In{nil, {}}}
+		In{}, &In{}, []*In{nil, {}}, map[string]any{"f": false, "z": 0, "x": 1.5, "u": uint8(0), "e": map[string]any{"n": nil}},
+		[]any{map[string]any{"f": false, "s": ""}, map[string]int{"z": 0}}}
 	specs := []optSpec{{}, {UseTags: true, KeyExact: true}, {KeyExact: true, CreateKey: "^"}}
 	for _, x := range vals {
 		c := caseOf(x)
@@ -145,4 +235,117 @@ func caseOf(x any) *c15Case {
 	p := reflect.New(rt)
 	p.Elem().Set(reflect.ValueOf(x))
 	return &c15Case{d: d, v: p.Elem()}
+}
+
+// ---- OmitNil alone: only nil values may go -----------------------------------------------------------
+
+func nilish(n *lib.Node) bool {
+	return n.Kind == 'n' || ((n.Kind == '[' || n.Kind == '{') && len(n.Kids) == 0)
+}
+
+// pruneNil takes out of every object the members that are null, [] or {} (hereditarily).
+func pruneNil(n *lib.Node) *lib.Node {
+	switch n.Kind {
+	case '[':
+		out := &lib.Node{Kind: '['}
+		for _, k := range n.Kids {
+			out.Kids = append(out.Kids, pruneNil(k))
+		}
+		return out
+	case '{':
+		out := &lib.Node{Kind: '{'}
+		for i, k := range n.Kids {
+			if p := pruneNil(k); !nilish(p) {
+				out.Keys = append(out.Keys, n.Keys[i])
+				out.Kids = append(out.Kids, p)
+			}
+		}
+		return out
+	}
+	return n
+}
+
+// lessNilMembers: x is off less object members whose value is null, [] or {} (once its own such
+// members are gone) — and, when emptyStr is set, less members whose value is "".
+func lessNilMembers(x, off *lib.Node, emptyStr bool) bool {
+	if x.Kind != off.Kind {
+		return false
+	}
+	switch x.Kind {
+	case '[':
+		if len(x.Kids) != len(off.Kids) {
+			return false
+		}
+		for i := range x.Kids {
+			if !lessNilMembers(x.Kids[i], off.Kids[i], emptyStr) {
+				return false
+			}
+		}
+		return true
+	case '{':
+		have := map[string]*lib.Node{}
+		for i, k := range x.Keys {
+			have[k] = x.Kids[i]
+		}
+		n := 0
+		for i, k := range off.Keys {
+			if xv, ok := have[k]; ok {
+				n++
+				if !lessNilMembers(xv, off.Kids[i], emptyStr) {
+					return false
+				}
+				continue
+			}
+			p := pruneNil(off.Kids[i])
+			if !nilish(p) && !(emptyStr && p.Kind == 'S' && p.Text == "-") {
+				return false
+			}
+		}
+		return n == len(x.Keys)
+	}
+	return x.Text == off.Text
+}
+
+// omitNilOracle: the documentation of OmitNil ("skips the writing of nil values in an object"): under
+// OmitNil WITHOUT OmitEmpty every encoder describes the tree it describes with both options off, less
+// object members whose value is nil — null, or a nil/empty slice or map written [] / {} (hereditarily).
+// A number, a string or a bool that disappears is a violation; an empty string dropped by a TIGHT
+// oj/sen writer is the known finding C15-omitnil-tight-empty-string.
+func omitNilOracle(c *c15Case, gotBy [4][]string, prettyBy [2]string) {
+	if gotBy[0] == nil || gotBy[1] == nil {
+		return
+	}
+	names := make([]string, 0, len(omitWriters)+1)
+	off := append([]string{}, gotBy[0]...)
+	on := append([]string{}, gotBy[1]...)
+	for _, w := range omitWriters {
+		names = append(names, w.enc)
+	}
+	names, off, on = append(names, "pretty.JSON"), append(off, prettyBy[0]), append(on, prettyBy[1])
+	rep.Count("omit_nil_oracle.cases", 1)
+	for i, name := range names {
+		if off[i] == "" || on[i] == "" || off[i] == on[i] {
+			continue
+		}
+		xn, e1 := lib.ParseCanon(on[i])
+		fn, e2 := lib.ParseCanon(off[i])
+		if e1 != nil || e2 != nil {
+			continue // a failure or an unparsable SEN text: judged by the other streams
+		}
+		if lessNilMembers(xn, fn, false) {
+			continue
+		}
+		s := c.spec
+		s.OmitNil, s.OmitEmpty = true, false
+		rp := c.replay()
+		rp["options"] = s.word(false, false)
+		rp["encoder"], rp["with_OmitNil"], rp["without"] = name, on[i], off[i]
+		f := lib.Finding{Kind: "violation", Class: "omit:omitnil-drops-non-nil:" + name, Replay: rp,
+			What: fmt.Sprintf("with OmitNil alone %s describes %s; without it %s: a member that is not nil is gone (or something else changed)", name, on[i], off[i])}
+		tight := i < len(omitWriters) && !omitWriters[i].indent && (omitWriters[i].model == "oj" || omitWriters[i].model == "sen")
+		if tight && lessNilMembers(xn, fn, true) && lib.HasKnown(knownList, omitTightID) {
+			f.Kind, f.KnownID, f.Class = "known", omitTightID, "omit:tight-vs-indent:"+omitWriters[i].model+":"+omitTightID
+		}
+		rep.Add(f)
+	}
 }
